@@ -647,6 +647,19 @@ def operand_discipline(S, ws, res):
         line = fl(b.blocks[bi]["t"]["sp"]).rsplit(":", 1)[-1]
         reads, writes = [], []      # (block, table root, class, term)
         for cbi in body:
+            # slice indexing is a place projection, not a call: `&(*t)[i]`
+            for st_ in b.blocks[cbi]["s"]:
+                if st_["k"] != "assign":
+                    continue
+                r_ = st_["r"]
+                pl_ = r_.get("p") if r_["k"] in ("ref", "rawptr") else (r_["o"]["p"] if r_["k"] == "use" and r_["o"]["k"] != "const" else None)
+                if pl_ is None:
+                    continue
+                for e_ in pl_["pr"]:
+                    if isinstance(e_, dict) and "i" in e_:
+                        cls_ = _operand_of(b, inst_l, {"k": "copy", "p": {"l": e_["i"], "pr": [], "ty": "usize"}})
+                        if cls_ and cls_ != ("out",):
+                            reads.append((cbi, root_local(b, {"k": "copy", "p": {"l": pl_["l"], "pr": [], "ty": ""}}), cls_, {"d": st_["p"], "t": None}))
             t = b.blocks[cbi]["t"]
             if t["k"] != "call" or len(t.get("args") or []) < 2:
                 continue
